@@ -24,7 +24,10 @@ GRAPHS = {
     "join": {"a": [], "b": [], "c": ["a", "b"]},
     "diamond": {"a": [], "b": ["a"], "d": ["a", "b"]},
     "diamond2": {"a": [], "b": ["a"], "d": ["b", "a"]},
+    # "r" has NO free parameter (a function of another dependence function only, D83); "c" depends on it
+    "relay": {"a": [], "r": ["a"], "c": ["r"]},
 }
+PFREE = {"r"}
 XS = np.array([0.5, 1.0, 1.7, 2.4, 3.1, 4.0, 5.2])
 
 
@@ -34,8 +37,12 @@ def _gate(v):
     return np.where(v > -4.0, 0.0, np.nan)
 
 
-def _make_func(conds, strict=False):
+def _make_func(conds, strict=False, pfree=False):
     """own parameters p0, p1 (linear), conditioners enter as an offset evaluated at the same x"""
+    if pfree:
+        def f(x, A):
+            return 2.0 * A(x) + (_gate(A(x)) if strict else 0.0)
+        return f
     if len(conds) == 0:
         if strict:
             def f(x, p0=-5.0, p1=0.0):
@@ -62,7 +69,7 @@ def _make_func(conds, strict=False):
 
 def _ydata(name, version, seed):
     rng = np.random.default_rng(hash((name, version, seed)) % (2**32))
-    base = {"a": (1.0, 0.5), "b": (2.0, -0.3), "c": (0.5, 1.2), "d": (3.0, 0.1)}[name]
+    base = {"a": (1.0, 0.5), "b": (2.0, -0.3), "c": (0.5, 1.2), "d": (3.0, 0.1), "r": (2.0, 1.0)}[name]
     return base[0] + 0.37 * version + (base[1] + 0.11 * version) * XS + 0.2 * rng.standard_normal(len(XS))
 
 
@@ -90,7 +97,7 @@ class Wiring:
         for c in conds:
             self.declare(c)
         kw = {k: self.objs[c] for k, c in zip(["A", "B"], conds)}
-        o = self.vc.DependenceFunction(_make_func(conds, self.strict), **kw)
+        o = self.vc.DependenceFunction(_make_func(conds, self.strict, name in PFREE), **kw)
         self.objs[name] = o
         self.names[id(o)] = name
         self.start[name] = dict(o.parameters)
@@ -111,6 +118,8 @@ class Wiring:
         computed with the CURRENT conditioner parameters; 2e9 if fit was never called"""
         if name not in self.data or name not in self.objs:
             return 2 * 10**9
+        if name in PFREE:
+            return 1          # nothing to estimate: fitted as soon as fit was requested
         y = self.data[name]
         A = np.c_[np.ones_like(XS), XS]
         with np.errstate(all="ignore"):
@@ -241,6 +250,11 @@ def fit_record(vc, rid, case):
     if case.get("fixed"):
         x, y = np.array(FIXED_DATA[case["fixed"]]["x"]), np.array(FIXED_DATA[case["fixed"]]["y"])
         n = len(x)
+    mag = case.get("mag", 1.0)
+    if mag != 1.0:
+        # small-magnitude data (steepness, standard deviations): linear shapes only, y and parameters scale together
+        y = y * mag
+        ptrue = tuple(v * mag for v in ptrue)
     wkind = case["weights"]
     weights = None
     if wkind == "y":
@@ -257,15 +271,22 @@ def fit_record(vc, rid, case):
         # constraint on the last parameter: p[-1] <= limit  (active: limit below the true value)
         lim = ptrue[-1] - 0.3 * (abs(ptrue[-1]) + 0.2) if ckind.startswith("active") else ptrue[-1] + 5 * (abs(ptrue[-1]) + 1)
         c = {"type": "ineq", "fun": (lambda p, lim=lim: lim - p[-1])}
-        if case.get("fixed"):
+        if case.get("fixed") == "line-active":
+            # ONE active linear constraint a + 1.3 b <= 1.03 in three spellings (D88)
+            c = {"type": "ineq", "fun": [lambda p: -p[0] - 1.3 * p[1] + 1.03, lambda p: 1.03 - (p[0] + 1.3 * p[1]),
+                                          lambda p: 1.03 - p[0] - 1.3 * p[1]][case.get("spelling", 0)]}
+        elif case.get("fixed"):
             c = {"type": "ineq", "fun": (lambda p: p[0] + p[1])}     # a + b >= 0: inactive
         cons = c if ckind.endswith("dict") else [c]
     expected = ["ok", "RuntimeError"]   # "Raises RuntimeError if the fit fails" is documented
+    if case.get("fixed") == "line-active":
+        expected = ["ok"]               # a strictly convex quadratic programme: there is nothing to fail
     if cons is not None and weights is not None:
         expected = ["NotImplementedError"]
     df = vc.DependenceFunction(func, bounds=bounds, constraints=cons, weights=weights)
     p0 = tuple(df.parameters.values())
-    rec = dict(id=rid, kind="fit", expected=expected, linear=bool(linear and ckind == "none" and _inactive(bounds, ptrue)),
+    rec = dict(id=rid, kind="fit", expected=expected,
+               linear=bool(linear and ckind == "none" and (_inactive(bounds, ptrue) or case.get("mag", 1.0) != 1.0)),
                inbounds=True, startadm=True, consmin=10**9, objstart=0, objfit=0, objpert=0, rpert=2 * 10**9, rstart=2 * 10**9, lindev=0, finite=True)
     wv = None if weights is None else np.asarray(weights(x, y), dtype=float)
     try:
@@ -325,9 +346,9 @@ def fit_record(vc, rid, case):
         sol, *_ = np.linalg.lstsq(cols * (sw[:, None] if wv is not None else 1.0), y * sw, rcond=None)
         # the property speaks of INACTIVE bounds: the unconstrained solution itself must lie well inside them
         # (with 3 noisy points it can leave the bounds although the generating parameters are inside)
-        inside = all(lo[i] + 1e-3 * (1 + abs(sol[i])) < sol[i] < hi[i] - 1e-3 * (1 + abs(sol[i])) for i in range(npar))
+        inside = all(lo[i] + 1e-3 * (mag + abs(sol[i])) < sol[i] < hi[i] - 1e-3 * (mag + abs(sol[i])) for i in range(npar))
         if inside:
-            rec["lindev"] = Qc(float(np.max(np.abs(p - sol) / (np.abs(sol) + 1e-3))), 1e9, 0, 2 * 10**9)
+            rec["lindev"] = Qc(float(np.max(np.abs(p - sol) / (np.abs(sol) + 1e-3 * mag))), 1e9, 0, 2 * 10**9)
         else:
             rec["linear"] = False
     return rec
@@ -347,6 +368,7 @@ def _inactive(bounds, ptrue):
 # data on which a restart stage of the constrained fit makes progress but hits SLSQP's iteration limit (D65):
 # DNVGL exponential shape, 8 support points, y = 2.1236 + 0.3261 exp(-0.3304 x) + small noise
 FIXED_DATA = {
+    "line-active": dict(x=[1.6, 3.8, 6.5], y=[1.32, 1.74, 2.23]),
     "exp3-8pts": dict(x=[3.165178296821977, 4.95019434472089, 5.126942778720538, 7.206066184389611,
                          7.473320373909797, 7.616005795665915, 7.876765040064615, 7.910974208582914],
                       y=[2.23936033084433, 2.186679465146297, 2.1821759880921525, 2.152817559009799,
@@ -362,6 +384,24 @@ def fit_cases(ctx):
     for ckind in ("inactive_dict", "inactive_list"):
         out.append(dict(shape=(exp3[0], exp3[1], (2.1236, 0.3261, -0.3304), exp3[3][0], False), weights="none", cons=ckind,
                         aslist=False, fixed="exp3-8pts", n=8, noise=0.0, seed=0))
+    lin = [sh for sh in shapes() if sh[0] == "linear2"][0]
+    for spelling in (0, 1, 2):
+        for ckind in ("active_dict", "active_list"):
+            out.append(dict(shape=(lin[0], lin[1], (0.71446375, 0.24272019), None, False), weights="none", cons=ckind, aslist=False,
+                            fixed="line-active", spelling=spelling, n=3, noise=0.0, seed=spelling))
+    # bounded (trf) fits of small-magnitude data (D87)
+    for mag in (1e-2, 1e-3, 1e-4):
+        for sh in shapes():
+            if sh[0] not in ("linear2", "limited_growth2"):
+                continue
+            for bounds in sh[3]:
+                if bounds is None or all(b == (None, None) for b in bounds):
+                    continue
+                for wkind in ("none", "x"):
+                    for _ in range(2):
+                        out.append(dict(shape=(sh[0], sh[1], sh[2], bounds, sh[0] == "linear2"), weights=wkind, cons="none", aslist=False,
+                                        mag=mag if sh[0] == "linear2" else 1.0, ymag=mag,
+                                        n=int(rng.integers(5, 12)), noise=0.01, seed=int(rng.integers(0, 2**31))))
     for sh in shapes():
         name, func, ptrue, blist, linear = sh
         for bounds in blist:
@@ -381,7 +421,8 @@ def fit_cases(ctx):
 def fit_key(c):
     return (f"fit shape={c['shape'][0]} bounds={c['shape'][3]} weights={c['weights']} cons={c['cons']} "
             f"n={c['n']} noise={c['noise']} seed={c['seed']}" + (" aslist" if c.get("aslist") else "")
-            + (f" data={c['fixed']}" if c.get("fixed") else ""))
+            + (f" data={c['fixed']}" if c.get("fixed") else "") + (f" spelling={c['spelling']}" if "spelling" in c else "")
+            + (f" mag={c['mag']}" if c.get("mag", 1.0) != 1.0 else ""))
 
 
 def random_histories(ctx):
@@ -439,7 +480,7 @@ def run(ctx):
         recs.append(fit_record(vc, rid, c))
         keys.append(fit_key(c))
         cases.append(dict(kind="fit", shape=c["shape"][0], bounds=c["shape"][3], weights=c["weights"], cons=c["cons"],
-                          n=c["n"], noise=c["noise"], seed=c["seed"], aslist=c.get("aslist", False), fixed=c.get("fixed")))
+                          n=c["n"], noise=c["noise"], seed=c["seed"], aslist=c.get("aslist", False), fixed=c.get("fixed"), spelling=c.get("spelling", 0), mag=c.get("mag", 1.0)))
     failing = ctx.validate("Trace_C14", "Trace_C14.cfg", recs)
     for r, k, c in zip(recs, keys, cases):
         ctx.case(k, nontrivial=(r["kind"] == "fit" or any(GRAPHS[r["graph"]][e["f"]] or True for e in r["events"])))
@@ -474,7 +515,7 @@ def replay(ctx, case):
         sh = [s for s in shapes() if s[0] == c["shape"]][0]
         b = c["bounds"]
         b = None if b is None else [tuple(x) for x in b]
-        r = fit_record(vc, 1, dict(shape=(sh[0], sh[1], sh[2], b, sh[4]), weights=c["weights"], cons=c["cons"], aslist=c.get("aslist", False), fixed=c.get("fixed"),
+        r = fit_record(vc, 1, dict(shape=(sh[0], sh[1], sh[2], b, sh[4]), weights=c["weights"], cons=c["cons"], aslist=c.get("aslist", False), fixed=c.get("fixed"), spelling=c.get("spelling", 0), mag=c.get("mag", 1.0),
                                    n=c["n"], noise=c["noise"], seed=c["seed"]))
     failing = ctx.validate("Trace_C14", "Trace_C14.cfg", [r])
     ctx.case(case["key"])
